@@ -38,7 +38,14 @@ def menu(fam, m):
     add(["", first])
     other_nd = "X" if fam == "2" else "ND"
     foreign = [x for x in ("POC", "Clear", "LM", "S", "Y") if x.lower() not in [l.lower() for l in legal]]
-    for bad in INVALID + [other_nd] + foreign[:2]:
+    # values the same-named metric has in ANOTHER version only (e.g. UI:R in a v4 session)
+    others = []
+    for f2 in T.FAMILIES:
+        if f2 != fam and m in T.METRICS[f2]:
+            for v in T.METRICS[f2][m]:
+                if v.lower() not in [l.lower() for l in legal] and v not in others:
+                    others.append(v)
+    for bad in INVALID + [other_nd] + foreign[:2] + others:
         if bad.lower() not in [l.lower() for l in legal]:
             add([bad, legal[-1]])
     add([])                                   # end of input at this question
@@ -70,9 +77,17 @@ def judge(fam, allm, nc, script):
     return None, run
 
 
+def warm_up():
+    """One complete all-metrics session of every version first: whatever a session leaves behind
+    (cached prompts, value lists) is then in place when the task's own dialogues run."""
+    for f in T.FAMILIES:
+        dialogue.run_builder(f, True, True, {}, default_for(f))
+
+
 def _task(t):
     fam, allm, nc, scripts = t
     acc = sweep.new_acc()
+    warm_up()
     for script in scripts:
         acc["n"] += 1
         why, run = judge(fam, allm, nc, script)
